@@ -14,6 +14,11 @@ package playback
 //                                          when a size field of the file is < 8 or >= 128 MiB. A 2..4 GiB make()
 //                                          then kills the child ("crash alloc") instead of costing a million
 //                                          page faults in the harness; it also is what happens on small hosts.
+//   mget <f|m> <k> <filehex>*k             real seekAndMux over k consecutive segment files (first one valid, the later ones
+//                                          from OTHER recordings with the same stream id and consecutive numbers but different
+//                                          track tables, or with damaged headers) with the real muxerFMP4 / muxerMP4, window
+//                                          spanning all of them; in-process under recover ("mgetx": capped child)
+//   e2e mget <k> <filehex>*k               the same through the real HTTP server in a child process
 //   e2e list <k> (<init-oracle> <filehex>)*k     CHILD PROCESS: real playback.Server (httpp server,
 //   e2e get <init-oracle> <events> <filehex>     handlerExitOnPanic, gin) + HTTP request; crash observed
 //
@@ -222,7 +227,36 @@ func verifC28Exec2(op string) string {
 			return "nopanic"
 		})
 
-	case "parsex", "durx", "muxx":
+	case "mget":
+		k := verifutil.Atoi(f[2])
+		dir, err := os.MkdirTemp(verifC28TmpDir(), "mget")
+		if err != nil {
+			panic(err)
+		}
+		defer os.RemoveAll(dir)
+		var segs []*recordstore.Segment
+		base := time.Date(2020, 1, 1, 0, 0, 0, 0, time.Local)
+		for i := 0; i < k; i++ {
+			p := filepath.Join(dir, fmt.Sprintf("s%d.mp4", i))
+			if err = os.WriteFile(p, verifutil.UnHex(f[3+i]), 0o644); err != nil {
+				panic(err)
+			}
+			segs = append(segs, &recordstore.Segment{Fpath: p, Start: base.Add(time.Duration(i) * 300 * time.Millisecond)})
+		}
+		return verifC28Measured(func() string {
+			var buf bytes.Buffer
+			var m muxer = &muxerFMP4{w: &buf}
+			if f[1] == "m" {
+				m = &muxerMP4{w: &buf}
+			}
+			err := seekAndMux(conf.RecordFormatFMP4, segs, base, time.Hour, m)
+			if err != nil {
+				return "nopanic err"
+			}
+			return "nopanic ok"
+		})
+
+	case "parsex", "durx", "muxx", "mgetx":
 		return verifC28Capped(f[0][:len(f[0])-1] + op[len(f[0]):])
 
 	case "e2e":
@@ -302,6 +336,11 @@ func verifC28E2E(f []string) string {
 		}
 	case "get":
 		files = append(files, f[3])
+	case "mget":
+		k := verifutil.Atoi(f[1])
+		for i := 0; i < k; i++ {
+			files = append(files, f[2+i])
+		}
 	}
 	for i, h := range files {
 		name := fmt.Sprintf("2020-01-01_00-00-%02d-000000.mp4", i*10)
@@ -310,7 +349,11 @@ func verifC28E2E(f []string) string {
 		}
 	}
 	cmd := exec.Command(os.Args[0], "-test.run", "^TestVerifC28Child$", "-test.count=1")
-	cmd.Env = append(os.Environ(), "VERIF_C28_CHILD="+dir, "VERIF_C28_REQ="+f[0], "VERIF_OUT=", "GOTRACEBACK=single")
+	req := f[0]
+	if req == "mget" {
+		req = "get"
+	}
+	cmd.Env = append(os.Environ(), "VERIF_C28_CHILD="+dir, "VERIF_C28_REQ="+req, "VERIF_OUT=", "GOTRACEBACK=single")
 	var so, se bytes.Buffer
 	cmd.Stdout = &so
 	cmd.Stderr = &se
@@ -446,6 +489,111 @@ func verifC28Record(video, audio bool, nSamples int, partDur time.Duration, clos
 		panic(err)
 	}
 	return b
+}
+
+// consecutive segments of one stream (stream id 1,2,3; numbers 0,1,2,…) for several track tables
+var verifC28Multi map[string][][]byte
+
+func verifC28RecordMulti(spec string) [][]byte {
+	dir, err := os.MkdirTemp(verifC28TmpDir(), "recm")
+	if err != nil {
+		panic(err)
+	}
+	defer os.RemoveAll(dir)
+	var paths []string
+	var tr []recorder.VerifTrack
+	for _, c := range spec {
+		switch c {
+		case 'v':
+			tr = append(tr, recorder.VerifTrack{Video: true, ClockRate: 90000})
+		case 'w': // video with another time scale
+			tr = append(tr, recorder.VerifTrack{Video: true, ClockRate: 30000})
+		case 'a':
+			tr = append(tr, recorder.VerifTrack{Video: false, ClockRate: 48000})
+		case 'b':
+			tr = append(tr, recorder.VerifTrack{Video: false, ClockRate: 8000})
+		}
+	}
+	r := &recorder.VerifRec{
+		Dir: dir, PathName: "p", SegmentDuration: 300 * time.Millisecond, PartDuration: 100 * time.Millisecond, Tracks: tr,
+		StreamID: [16]byte{1, 2, 3}, OnCreate: func(p string) { paths = append(paths, p) },
+	}
+	r.Start()
+	base := time.Date(2020, 1, 1, 0, 0, 0, 0, time.Local)
+	for i := 0; i < 14; i++ {
+		ntp := base.Add(time.Duration(i) * 100 * time.Millisecond)
+		for k, t := range tr {
+			r.Write(recorder.VerifSample{Track: k, DTS: int64(i) * int64(t.ClockRate) / 10, NTP: ntp, NonSync: t.Video && i%2 != 0,
+				Payload: []byte{byte(k), 2, 3, byte(i)}})
+		}
+	}
+	r.Close()
+	var out [][]byte
+	for _, p := range paths {
+		b, err := os.ReadFile(p)
+		if err != nil {
+			panic(err)
+		}
+		out = append(out, b)
+	}
+	return out
+}
+
+func verifC28InitMulti() {
+	if verifC28Multi != nil {
+		return
+	}
+	verifC28Multi = map[string][][]byte{}
+	for _, sp := range []string{"va", "av", "a", "v", "vab", "wa", "vb"} {
+		verifC28Multi[sp] = verifC28RecordMulti(sp)
+		if len(verifC28Multi[sp]) < 3 {
+			panic("multi-segment base too short: " + sp)
+		}
+	}
+}
+
+// a directory for GET /get: segment #0 of one recording, then segments #1.. taken from recordings of the SAME stream id
+// with other track tables (ids missing / extra / swapped, other codecs and time scales), optionally with a damaged header
+func verifC28MgetOp(r *verifutil.Rand, e2e bool) string {
+	verifC28InitMulti()
+	specs := []string{"va", "av", "a", "v", "vab", "wa", "vb"}
+	first := specs[r.Intn(len(specs))]
+	k := 2 + r.Intn(2)
+	files := [][]byte{verifC28Multi[first][0]}
+	risky := false
+	for i := 1; i < k; i++ {
+		sp := specs[r.Intn(len(specs))]
+		if r.Chance(1, 4) {
+			sp = first
+		}
+		b := verifC28Multi[sp][i]
+		if r.Chance(1, 4) {
+			for tries := 0; tries < 8; tries++ {
+				c := verifC28Mutate(r, b, 0)
+				if e2e && verifC28Risky(c) {
+					continue
+				}
+				b = c
+				break
+			}
+		}
+		risky = risky || verifC28Risky(b)
+		files = append(files, b)
+	}
+	var sb strings.Builder
+	if e2e {
+		fmt.Fprintf(&sb, "mget %d", k)
+	} else {
+		x := ""
+		if risky {
+			x = "x"
+		}
+		fmt.Fprintf(&sb, "mget%s %s %d", x, r.Pick("f", "f", "m"), k)
+	}
+	for _, b := range files {
+		sb.WriteString(" " + verifutil.Hex(b))
+	}
+	return sb.String()
 }
 
 func verifC28InitBases() {
@@ -823,7 +971,13 @@ func verifC28Gen(r *verifutil.Rand, i int, thorough bool) []string {
 		e2eEvery = 150
 	}
 	if i%e2eEvery == e2eEvery-1 {
+		if (i/e2eEvery)%3 == 2 {
+			return []string{"e2e " + verifC28MgetOp(r, true)}
+		}
 		return []string{verifC28GenE2E(r, src, base, hl)}
+	}
+	if i%9 == 4 {
+		return []string{verifC28MgetOp(r, false)}
 	}
 
 	switch k := r.Intn(10); {
@@ -928,7 +1082,7 @@ func TestVerifC28(t *testing.T) {
 			f := strings.Fields(op)
 			a := strings.Fields(impl)
 			k := f[0]
-			if k == "parsex" || k == "durx" || k == "muxx" {
+			if k == "parsex" || k == "durx" || k == "muxx" || k == "mgetx" {
 				k = k[:len(k)-1] + "(capped-child)"
 			}
 			if k == "e2e" {
